@@ -108,6 +108,13 @@ func nativeRun(o *Options, prog *load.Program, pkgDir string, cases []ReplayCase
 		if n >= len(remaining) {
 			break
 		}
+		if n > 0 {
+			// the native runner exits after a case that timed out (its result is written)
+			if last, ok := results[remaining[n-1].ID]; ok && last.Timeout {
+				remaining = remaining[n:]
+				continue
+			}
+		}
 		if runErr == nil && n == 0 {
 			return results, fmt.Errorf("native replay produced no results: %s", tail(string(out), 2000))
 		}
@@ -171,7 +178,7 @@ func replayAll(o *Options, prog *load.Program, all []*harnessStats, findings []*
 				f.Replayed = true
 				f.ReplayOut = fmt.Sprintf("failed=%v panic=%q vacuous=%v missing=%v", r.Failed, tail(r.Panic, 200), r.Vacuous, r.Missing)
 				for _, id := range r.Failed {
-					if id == f.Fail.ID || (f.Fail.ID == "uncaught-panic" && id == "process-died") || id == "process-died" && (strings.Contains(f.Fail.ID, "panic") || strings.Contains(f.Fail.ID, "terminat")) {
+					if id == f.Fail.ID || (f.Fail.ID == "uncaught-panic" && id == "process-died") || id == "process-died" && (strings.Contains(f.Fail.ID, "panic") || strings.Contains(f.Fail.ID, "terminat")) || (id == "terminates" && f.Fail.ID == "terminates") {
 						f.Confirmed = true
 					}
 				}
